@@ -71,7 +71,14 @@ class VLoop(base_events.BaseEventLoop):
         pass
 
     def is_running(self) -> bool:
-        return True
+        return not self._closed
+
+    def shut(self) -> None:
+        """The application's event loop has ended and was closed (asyncio.run returned): nothing runs on it any more and
+        call_soon / call_soon_threadsafe raise RuntimeError('Event loop is closed'), as on a real closed loop."""
+        self._ready.clear()
+        self._scheduled.clear()
+        self._closed = True
 
     def _on_exception(self, loop: Any, context: dict) -> None:
         self.exceptions.append(context)
